@@ -8,7 +8,7 @@ RULE = ("traced runs of both front ends engineered to end with empty clusters (K
         "distinct by case hash")
 ASSUMPTIONS = ["per-point densities recomputed by the oracle under the final model captured at the metrics call",
                "joint runs: cost excess explained exactly by priced series boundaries is the recorded finding joint-boundary-priced"]
-SHARD_TIMEOUT = {"quick": 900, "thorough": 3400}
+SHARD_TIMEOUT = {"quick": 300, "thorough": 3400}
 MIX = {"single:empty_final": 4, "single:small": 2, "single:general": 2, "joint:joint": 2, "joint:empty_final": 1}
 PROPS = ("C06",)
 
